@@ -296,10 +296,15 @@ def run(ctx):
         deep = _cfg(tmp, "BleBroadcast_deep.cfg", (("MaxSteps = 6", "MaxSteps = 7"),) if ctx.thorough else ())
         ctx.tlc("ble/BleBroadcast", deep, ignore_cover=("InstallKey",), label="W=3, one pairing, histories <= 6/7, exhaustive",
                 timeout=900)
-        real = _cfg(tmp, "BleBroadcast_real.cfg", () if ctx.thorough else (("MaxSteps = 3", "MaxSteps = 2"),
-                                                                           ("Starts = {1000, 65500}", "Starts = {65500}")))
+        # W=99: histories <= 2 (quick: from 65500; thorough: from 1000 and 65500), thorough also histories <= 3 from 65500
+        real = _cfg(tmp, "BleBroadcast_real.cfg", (("MaxSteps = 3", "MaxSteps = 2"),)
+                    + (() if ctx.thorough else (("Starts = {1000, 65500}", "Starts = {65500}"),)))
         ctx.tlc("ble/BleBroadcast", real, ignore_cover=("InstallKey",), timeout=1500,
-                label="W=99, offsets of the quantifier + early recordings, last starting at 65500 (thorough: and 1000), exhaustive")
+                label="W=99, offsets of the quantifier + early recordings, histories <= 2, exhaustive")
+        if ctx.thorough:
+            real3 = _cfg(tmp, "BleBroadcast_real.cfg", (("Starts = {1000, 65500}", "Starts = {65500}"),), out="real3.cfg")
+            ctx.tlc("ble/BleBroadcast", real3, ignore_cover=("InstallKey",), timeout=2400,
+                    label="W=99, offsets of the quantifier + early recordings, last starting at 65500, histories <= 3, exhaustive")
         # ---------------- (B) histories from TLC
         cases_out = os.path.join(tmp, "cases.ndjson")
         ctx.tlc("ble/BleBroadcast_Cases", _cfg(tmp, "BleBroadcast_Cases.cfg"), env={"CASES_OUT": cases_out},
